@@ -224,10 +224,29 @@ func ruleCryptoConstants(c *core.Ctx, rule string) {
 				o.At(fn.Site(l, "RC4 pass loop"))
 				t := tripOf(info, l)
 				if !t.ok {
-					core.Undecided("loop shape not recognised")
+					o.Unrec("the loop of the RC4 passes is not a counting loop with constant bounds: the key modifiers are not enumerated")
+					continue
 				}
-				if t.lo != r.lo || t.hi != r.hi {
-					o.Fail("RC4 passes use key modifiers %d..%d, the standard says %d..%d", t.lo, t.hi, r.lo, r.hi)
+				// the modifier of a pass: what the key bytes are XORed with, as a function of the loop
+				// variable (the variable itself, or a local computed from it: i := byte(19 - round))
+				lo, hi := t.lo, t.hi
+				if mod, lv := rc4Modifier(fn, l); mod != nil && lv != nil && core.ObjOf(info, mod) != lv {
+					first, last, okF, okL := int64(0), int64(0), false, false
+					dec, _ := c.Prog.Tabulate(fn, mod, nil, map[string][]int64{lv.Name(): {t.lo, t.hi}}, func(env map[string]int64, n int64, _ bool) {
+						if v, _ := core.EnvGet(env, lv.Name()); v == t.lo {
+							first, okF = n, true
+						} else if v == t.hi {
+							last, okL = n, true
+						}
+					})
+					if !dec || !okF || !okL {
+						o.Unrec("the key modifier %s of the RC4 passes was not evaluated for the loop variable %s", core.ExprStr(mod), lv.Name())
+						continue
+					}
+					lo, hi = first, last
+				}
+				if lo != r.lo || hi != r.hi {
+					o.Fail("RC4 passes use key modifiers %d..%d, the standard says %d..%d", lo, hi, r.lo, r.hi)
 				}
 				// key[j] = base[j] ^ i
 				xor := false
@@ -356,15 +375,15 @@ func ruleCryptoConstants(c *core.Ctx, rule string) {
 		for _, cs := range core.CallsIn(info, outer.Body, false) {
 			switch cs.Key {
 			case "crypto/aes.NewCipher":
-				o.Require(strings.ReplaceAll(core.ExprStr(cs.Call.Args[0]), " ", "") == "K[:16]", "AES key is %s, want K[:16]", core.ExprStr(cs.Call.Args[0]))
+				o.Require(sliceText(info, cs.Call.Args[0]) == "K[:16]", "AES key is %s, want K[:16]", core.ExprStr(cs.Call.Args[0]))
 			case "crypto/cipher.NewCBCEncrypter":
-				o.Require(strings.ReplaceAll(core.ExprStr(cs.Call.Args[1]), " ", "") == "K[16:32]", "AES IV is %s, want K[16:32]", core.ExprStr(cs.Call.Args[1]))
+				o.Require(sliceText(info, cs.Call.Args[1]) == "K[16:32]", "AES IV is %s, want K[16:32]", core.ExprStr(cs.Call.Args[1]))
 			}
 		}
 		// rem from first 16 bytes
 		first16 := false
 		ast.Inspect(outer.Body, func(n ast.Node) bool {
-			if rs, ok := n.(*ast.RangeStmt); ok && strings.ReplaceAll(core.ExprStr(rs.X), " ", "") == "K1[:16]" {
+			if rs, ok := n.(*ast.RangeStmt); ok && sliceText(info, rs.X) == "K1[:16]" {
 				first16 = true
 			}
 			return true
@@ -385,7 +404,7 @@ func ruleCryptoConstants(c *core.Ctx, rule string) {
 		o.Require(nInit == 1, "the initial hash must be SHA-256 (found %d SHA-256 computations outside the round loop)", nInit)
 		for _, r := range fn.Graph().Returns() {
 			rs := r.AST.(*ast.ReturnStmt)
-			o.Require(strings.ReplaceAll(core.ExprStr(rs.Results[0]), " ", "") == "K[:32]", "slowHash returns %s, want K[:32]", core.ExprStr(rs.Results[0]))
+			o.Require(sliceText(info, rs.Results[0]) == "K[:32]", "slowHash returns %s, want K[:32]", core.ExprStr(rs.Results[0]))
 		}
 	})
 	c.Check(rule, "pdf.(*stdSecHandler).computePerms~checkPerms", "the /Perms block is P (little endian) | FF FF FF FF | 'T' or 'F' | 'adb' | 4 random bytes, and checkPerms verifies exactly these 12 bytes", func(o *core.Ob) {
@@ -405,7 +424,7 @@ func ruleCryptoConstants(c *core.Ctx, rule string) {
 		}
 		rnd := false
 		for _, cs := range core.CallsIn(fn.Info(), fn.Decl, false) {
-			if cs.Key == "crypto/rand.Read" && strings.ReplaceAll(core.ExprStr(cs.Call.Args[0]), " ", "") == "buf[12:16]" {
+			if cs.Key == "crypto/rand.Read" && sliceText(fn.Info(), cs.Call.Args[0]) == "buf[12:16]" {
 				rnd = true
 			}
 		}
@@ -592,7 +611,22 @@ func ruleCryptoConstants(c *core.Ctx, rule string) {
 				if strings.ReplaceAll(core.ExprStr(as.Rhs[0]), " ", "") == "Integer(int32(sec.P))" {
 					ok = true
 				}
+				// the same by structure: Integer(int32(<the field P of the security handler>))
+				info := fn.Info()
+				if outer, isC := ast.Unparen(as.Rhs[0]).(*ast.CallExpr); isC && len(outer.Args) == 1 && core.IsNamed(info.TypeOf(outer), "pdf", "Integer") {
+					if inner, isC2 := ast.Unparen(outer.Args[0]).(*ast.CallExpr); isC2 && len(inner.Args) == 1 {
+						if b, isB := info.TypeOf(inner).Underlying().(*types.Basic); isB && b.Kind() == types.Int32 {
+							if _, isF := core.FieldSel(info, inner.Args[0], "pdf", "stdSecHandler", "P"); isF {
+								ok = true
+							}
+						}
+					}
+				}
 			}
+		}
+		if len(keys["P"]) == 0 {
+			o.Unrec("no store of /P was found in AsDict or the helpers folded into it")
+			return
 		}
 		o.Require(ok, "/P is not Integer(int32(sec.P))")
 	})
@@ -911,7 +945,10 @@ func hashInputPieces(fn *core.Func, g *core.Graph, keep func(sink callV) bool) (
 				}
 				l, isL := ast.Unparen(as.Lhs[0]).(*ast.Ident)
 				call, isC := ast.Unparen(as.Rhs[0]).(*ast.CallExpr)
-				if !isL || !isC || info.ObjectOf(l) != obj || core.CalleeKey(info, call) != "builtin.append" || len(call.Args) < 2 {
+				if !isL || !isC || info.ObjectOf(l) != obj || len(call.Args) < 2 {
+					return true
+				}
+				if _, isEndian := endianAppend(info, call); core.CalleeKey(info, call) != "builtin.append" && !isEndian {
 					return true
 				}
 				if b, isB := ast.Unparen(call.Args[0]).(*ast.Ident); isB && info.ObjectOf(b) == obj {
@@ -1002,6 +1039,11 @@ func hashInputPieces(fn *core.Func, g *core.Graph, keep func(sink callV) bool) (
 			}
 			if a.call.Ellipsis.IsValid() {
 				pieces = append(pieces, hashPiece{hashArg(fn, a.call.Args[1]), v})
+				continue
+			}
+			if bs, isEndian := endianAppend(info, a.call); isEndian {
+				// data = binary.LittleEndian.AppendUint32(data, x): the bytes of x, low byte first
+				pieces = append(pieces, hashPiece{strings.Join(bs(fn), ","), v})
 				continue
 			}
 			var parts []string
@@ -1120,6 +1162,63 @@ func ruleKeyForRefLayout(c *core.Ctx) {
 			}
 			return true
 		})
+		// the same with a test: l := n + 5; if l > 16 { l = 16 }
+		clamped := func(obj types.Object) bool {
+			if obj == nil {
+				return false
+			}
+			base, clamp := 0, 0
+			for _, dv := range defVertices(g, obj) {
+				as, ok := dv.AST.(*ast.AssignStmt)
+				if !ok || len(as.Lhs) != 1 || len(as.Rhs) != 1 {
+					return false
+				}
+				if sum, isSum := ast.Unparen(as.Rhs[0]).(*ast.BinaryExpr); isSum && sum.Op == token.ADD {
+					okSum := false
+					for _, pr := range [][2]ast.Expr{{sum.X, sum.Y}, {sum.Y, sum.X}} {
+						_, name, isSel := selName(pr[0])
+						if five, isC := core.IntConst(info, pr[1]); isSel && name == "keyBytes" && isC && five == 5 {
+							okSum = true
+						}
+					}
+					if !okSum {
+						return false
+					}
+					base++
+					continue
+				}
+				if k, isK := core.IntConst(info, as.Rhs[0]); isK && k == 16 {
+					under := g.GuardedBy(dv, func(a core.Atom) bool {
+						cmp, isCmp := a.AsCmp()
+						if !isCmp {
+							return false
+						}
+						l, r, op := cmp.L, cmp.R, cmp.Op
+						if op == token.LSS || op == token.LEQ {
+							l, r = r, l
+							op = map[token.Token]token.Token{token.LSS: token.GTR, token.LEQ: token.GEQ}[op]
+						}
+						kk, isKK := core.IntConst(info, r)
+						return core.ObjOf(info, l) == obj && isKK && (op == token.GTR && kk == 16 || op == token.GEQ && (kk == 16 || kk == 17))
+					})
+					if !under {
+						return false
+					}
+					clamp++
+					continue
+				}
+				return false
+			}
+			return base == 1 && clamp == 1
+		}
+		if !okLen {
+			ast.Inspect(fn.Decl.Body, func(n ast.Node) bool {
+				if se, ok := n.(*ast.SliceExpr); ok && se.High != nil && clamped(core.ObjOf(info, se.High)) {
+					okLen = true
+				}
+				return true
+			})
+		}
 		o.Require(okLen, "the per-object key length is not min(n+5, 16)")
 		// revisions: which returns can be reached under each value of R
 		var rexpr ast.Expr
@@ -1156,6 +1255,9 @@ func ruleKeyForRefLayout(c *core.Ctx) {
 			return true
 		}
 		isLen := func(at *core.V, e ast.Expr) bool {
+			if clamped(core.ObjOf(info, e)) {
+				return true
+			}
 			for _, vc := range valueCases(g, at, e, 2) {
 				call, ok := ast.Unparen(vc.Expr).(*ast.CallExpr)
 				if !ok || core.CalleeKey(info, call) != "builtin.min" {
@@ -1233,8 +1335,16 @@ func ruleIVProvenance(c *core.Ctx) {
 					o.Fact("fixed IV by specification: helper called only by functions with a fixed IV")
 					return
 				}
-				iv := core.ObjOf(info, cv.Call.Args[1])
-				if iv == nil {
+				// the IV: a local slice, or the whole of a local array (iv[:])
+				ivOf := func(e ast.Expr) types.Object {
+					e = ast.Unparen(e)
+					if se, isSl := e.(*ast.SliceExpr); isSl && se.Low == nil && se.High == nil {
+						e = se.X
+					}
+					return core.ObjOf(info, e)
+				}
+				iv := ivOf(cv.Call.Args[1])
+				if v, isVar := iv.(*types.Var); iv == nil || !isVar || v.IsField() {
 					o.Fail("the IV is not a local variable")
 					return
 				}
@@ -1245,14 +1355,14 @@ func ruleIVProvenance(c *core.Ctx) {
 						continue
 					}
 					for _, cs := range core.CallsIn(info, x.AST, false) {
-						if cs.Key == "io.ReadFull" && len(cs.Call.Args) == 2 && core.ObjOf(info, cs.Call.Args[1]) == iv {
+						if cs.Key == "io.ReadFull" && len(cs.Call.Args) == 2 && ivOf(cs.Call.Args[1]) == iv {
 							if se, ok := cs.Call.Args[0].(*ast.SelectorExpr); ok {
 								if pn, ok := info.ObjectOf(se.X.(*ast.Ident)).(*types.PkgName); ok && pn.Imported().Path() == "crypto/rand" && se.Sel.Name == "Reader" {
 									fill = x
 								}
 							}
 						}
-						if cs.Key == "crypto/rand.Read" && core.ObjOf(info, cs.Call.Args[0]) == iv {
+						if cs.Key == "crypto/rand.Read" && ivOf(cs.Call.Args[0]) == iv {
 							fill = x
 						}
 					}
@@ -1428,8 +1538,19 @@ func rulePlaintextExemptions(c *core.Ctx) {
 						}
 						conds = append(conds, strings.ReplaceAll(cnd, " ", ""))
 					}
+					// the test under which it is set: the one condition that is not a negated earlier exit
+					var pos []string
+					for _, cnd := range conds {
+						if !strings.HasPrefix(cnd, "!(") {
+							pos = append(pos, cnd)
+						}
+					}
 					if len(conds) == 1 {
 						defs = append(defs, conds[0])
+						continue
+					}
+					if len(pos) == 1 {
+						defs = append(defs, pos[0])
 						continue
 					}
 				}
@@ -1438,7 +1559,22 @@ func rulePlaintextExemptions(c *core.Ctx) {
 		}
 		sort.Strings(defs)
 		want := []string{"startsWithCrypt", "w.refIsPlaintext[ref]||leadingCrypt!=nil"}
-		if strings.Join(defs, ";") != strings.Join(want, ";") {
+		// the definitions together: a disjunction of tests, however it is spread over assignments
+		flat := func(ds []string) string {
+			set := map[string]bool{}
+			for _, d := range ds {
+				for _, a := range strings.Split(d, "||") {
+					set[strings.Trim(a, "()")] = true
+				}
+			}
+			var out []string
+			for a := range set {
+				out = append(out, a)
+			}
+			sort.Strings(out)
+			return strings.Join(out, ";")
+		}
+		if strings.Join(defs, ";") != strings.Join(want, ";") && flat(defs) != flat(want) {
 			positive := false
 			for _, d := range defs {
 				if d == "true" {
@@ -2012,4 +2148,114 @@ func slowHashTermination(c *core.Ctx, o *core.Ob, fn *core.Func, outer *ast.ForS
 	if bad != "" {
 		o.FailAt(fn.Site(test, ""), "termination test %s: %s (continue while n < 64 || last byte > n-32)", c.Prog.Src(test), bad)
 	}
+}
+
+// sliceText renders a slice expression with constant bounds evaluated
+// (K[keyLen:keyLen+aes.BlockSize] is K[16:32]); other expressions are
+// rendered as they are, without spaces.
+func sliceText(info *types.Info, e ast.Expr) string {
+	sl, ok := ast.Unparen(e).(*ast.SliceExpr)
+	if !ok {
+		return strings.ReplaceAll(core.ExprStr(e), " ", "")
+	}
+	bound := func(b ast.Expr) string {
+		if b == nil {
+			return ""
+		}
+		if k, isK := core.IntConst(info, b); isK {
+			return strconv.FormatInt(k, 10)
+		}
+		return strings.ReplaceAll(core.ExprStr(b), " ", "")
+	}
+	return strings.ReplaceAll(core.ExprStr(sl.X), " ", "") + "[" + bound(sl.Low) + ":" + bound(sl.High) + "]"
+}
+
+// rc4Modifier finds, in the loop of the additional RC4 passes, the expression
+// the key bytes are XORed with (locals defined once in the loop body are read
+// as their definitions) and the loop variable.  nil when not found.
+func rc4Modifier(fn *core.Func, l ast.Stmt) (ast.Expr, types.Object) {
+	info := fn.Info()
+	var lv types.Object
+	var body *ast.BlockStmt
+	switch x := l.(type) {
+	case *ast.RangeStmt:
+		if x.Key != nil {
+			lv = core.ObjOf(info, x.Key)
+		}
+		body = x.Body
+	case *ast.ForStmt:
+		if as, ok := x.Init.(*ast.AssignStmt); ok && len(as.Lhs) == 1 {
+			lv = core.ObjOf(info, as.Lhs[0])
+		}
+		body = x.Body
+	}
+	if lv == nil || body == nil {
+		return nil, nil
+	}
+	var mod ast.Expr
+	ast.Inspect(body, func(n ast.Node) bool {
+		be, ok := n.(*ast.BinaryExpr)
+		if !ok || be.Op != token.XOR || mod != nil {
+			return true
+		}
+		// the operand that depends on the loop variable (directly or through a local of the body)
+		for _, e := range []ast.Expr{be.Y, be.X} {
+			cur := e
+			for steps := 0; steps < 3; steps++ {
+				if core.Mentions(info, cur, lv) {
+					mod = cur
+					return false
+				}
+				obj := core.ObjOf(info, peelConv(info, cur))
+				if obj == nil {
+					break
+				}
+				ds := core.AssignsTo(info, body, obj)
+				if len(ds) != 1 {
+					break
+				}
+				as, isAs := ds[0].(*ast.AssignStmt)
+				if !isAs || len(as.Lhs) != 1 || len(as.Rhs) != 1 {
+					break
+				}
+				cur = as.Rhs[0]
+			}
+		}
+		return true
+	})
+	return mod, lv
+}
+
+// endianAppend recognises binary.LittleEndian/BigEndian.AppendUintNN(buf, x)
+// and returns a function that renders the bytes appended, in order.
+func endianAppend(info *types.Info, call *ast.CallExpr) (func(fn *core.Func) []string, bool) {
+	key := core.CalleeKey(info, call)
+	n := 0
+	switch {
+	case strings.HasSuffix(key, "ndian.AppendUint16"):
+		n = 2
+	case strings.HasSuffix(key, "ndian.AppendUint32"):
+		n = 4
+	case strings.HasSuffix(key, "ndian.AppendUint64"):
+		n = 8
+	}
+	if n == 0 || len(call.Args) != 2 || !strings.Contains(key, "encoding/binary") {
+		return nil, false
+	}
+	big := strings.Contains(strings.ToLower(key), "bigendian")
+	return func(fn *core.Func) []string {
+		var out []string
+		for i := 0; i < n; i++ {
+			sh := 8 * i
+			if big {
+				sh = 8 * (n - 1 - i)
+			}
+			if k, isK := core.IntConst(fn.Info(), call.Args[1]); isK {
+				out = append(out, strconv.FormatInt((k>>uint(sh))&0xff, 10))
+			} else {
+				out = append(out, strings.ReplaceAll(core.ExprStrAliased(fn, call.Args[1]), " ", "")+">>"+strconv.Itoa(sh))
+			}
+		}
+		return out
+	}, true
 }
